@@ -59,6 +59,8 @@ def family(prop, tier, exe, wd):
         jobs = small + abs_extra(thorough) + F.abs_cross(every=1 if thorough else 2) + F.small_n4("n4abs", F.has_abs, 50 if not thorough else 500)
     else:
         raise ToolError("no family for " + prop)
+    pred = {"C03": F.no_abs, "C04": F.no_abs, "C07": F.has_norep, "C09": F.has_special, "C08": F.has_abs}.get(prop)
+    jobs += F.modifier_table(pred)
     return jobs
 
 
@@ -164,13 +166,13 @@ def order_jobs(jobs):
     return sorted(jobs, key=lambda j: (0 if "fancy" in j else 1, ))
 
 
-def tabulate(exe, wd, jobs, shards, maxstates=60000, budget=None):
+def tabulate(exe, wd, jobs, shards, maxstates=40000, budget=None):
     """maxstates: cap per layout (the unchanged tree needs < 7 000 at 3 keys held over 7 keys, < 35 000 for the built-ins at 4); budget: cap on the
     whole run, after which every further layout is cut at 2 000 states. Both only matter for a change that makes the state space explode
     (a key that is never released again, a duplicate press acted on): what was recorded is still explored, the evidence reports the truncation."""
     jobs = order_jobs(jobs)
     if budget is None:
-        budget = 1000000 + 1500 * len(jobs)
+        budget = 1200000 + 500 * len(jobs)
     with open(os.path.join(wd, "jobs.json"), "w") as f:
         json.dump({"maxstates": maxstates, "budget": budget, "jobs": jobs}, f)
     t0 = time.time()
@@ -500,7 +502,7 @@ def check_c06(tier, replay_file=None):
             builtins = [json.loads(l) for l in run_tmv(exe, ["builtins"]).splitlines() if l.strip()]
             jobs = F.builtin_jobs(builtins, thorough) + F.readme_jobs() + [F.job("empty", [])] + \
                 F.small_family("all", F.anyl, sz["per_pair"], sz["n_triples"], seed() if thorough else None, sz["extra_pairs"], sz["extra_triples"]) + \
-                F.small_family("abs", F.has_abs, 1, 100 if not thorough else 800, None, 0, 0, ones=False) + abs_extra(thorough) + F.abs_cross(every=1 if thorough else 2)
+                F.small_family("abs", F.has_abs, 1, 100 if not thorough else 800, None, 0, 0, ones=False) + abs_extra(thorough) + F.abs_cross(every=1 if thorough else 2) + F.modifier_table()
             if not thorough:
                 jobs = [j for j in jobs if not j["id"].startswith("builtin-super-dvorak-1")]
             stats, shards = tabulate(exe, wd, jobs, PROCS)
